@@ -97,25 +97,29 @@ func TestWorker(t *testing.T) {
 		maxViol = 2
 	}
 	nviol := 0
-	for idx := job.From; idx < job.To; idx++ {
-		logf("BEGIN %d", idx)
-		tape := rt.NewTape(job.Seed, idx)
+	runOne := func(idx uint64, sub int, extra json.RawMessage) bool {
+		tapeIdx := idx
+		if sub >= 0 {
+			tapeIdx = idx*65536 + uint64(sub) + 1<<40
+		}
+		tape := rt.NewTape(job.Seed, tapeIdx)
 		var trace func(string)
 		if traceF != nil {
-			fmt.Fprintf(traceF, "RUN %d\n", idx)
+			fmt.Fprintf(traceF, "RUN %d.%d\n", idx, sub)
 			trace = func(l string) { traceF.WriteString(l); traceF.WriteByte('\n') }
 		}
-		rec := e.Run(t, job.Batch, tape, idx, job.Extra, trace)
+		rec := e.Run(t, job.Batch, tape, idx, extra, trace)
 		rec.Run = idx
+		rec.Sub = sub
 		rec.Batch = job.Batch
 		rec.TapeLen = len(tape.Rec)
 		if traceF != nil {
-			fmt.Fprintf(traceF, "END %d hash=%s outcome=%s\n", idx, rec.LogHash, rec.Outcome)
+			fmt.Fprintf(traceF, "END %d.%d hash=%s outcome=%s\n", idx, sub, rec.LogHash, rec.Outcome)
 		}
 		for _, v := range rec.Violations {
 			if v.Property == "HARNESS" {
 				rec.Outcome = "infra"
-				rec.Reason = "harness-only deadlock: " + v.Signature + " :: " + v.Detail
+				rec.Reason = "harness-only " + v.Class + ": " + v.Signature + " :: " + v.Detail
 			}
 		}
 		own := -1
@@ -132,11 +136,8 @@ func TestWorker(t *testing.T) {
 		if rec.Outcome == "violation" && own >= 0 {
 			nviol++
 			v := rec.Violations[own]
-			rf := &ReplayFile{Property: v.Property, Engine: job.Property, Batch: job.Batch, Seed: job.Seed, RunIndex: idx, Extra: job.Extra,
+			rf := &ReplayFile{Property: job.Property, Engine: job.Property, Batch: job.Batch, Seed: job.Seed, RunIndex: idx, Sub: sub, Extra: extra,
 				Violation: v, AllViolations: rec.Violations, LogHash: rec.LogHash, Sample: rec.Sample, Tape: tape.Rec}
-			// the engine that reproduces it is the job's engine
-			rf.Property = job.Property
-			rf.Violation = v
 			isKnown := false
 			for _, k := range job.Known {
 				if k.Property == v.Property && k.Class == v.Class && k.Signature == v.Signature {
@@ -147,9 +148,9 @@ func TestWorker(t *testing.T) {
 				nviol--
 			}
 			if !job.NoMinimise && !isKnown {
-				min, attempts := minimise(t, e, job.Batch, idx, job.Extra, tape.Rec, v, 400)
+				min, attempts := minimise(t, e, job.Batch, idx, extra, tape.Rec, v, 400)
 				// final run of the minimised tape to get its hash and sample
-				mrec := e.Run(t, job.Batch, rt.NewReplayTape(min), idx, job.Extra, nil)
+				mrec := e.Run(t, job.Batch, rt.NewReplayTape(min), idx, extra, nil)
 				if matchViolation(mrec, v) {
 					rf.MinimisedFrom = map[string]int{"tape": len(tape.Rec), "attempts": attempts}
 					rf.Tape = min
@@ -170,8 +171,28 @@ func TestWorker(t *testing.T) {
 		if err := enc.Encode(rec); err != nil {
 			t.Fatalf("write: %v", err)
 		}
+		return nviol < maxViol
+	}
+	for idx := job.From; idx < job.To; idx++ {
+		logf("BEGIN %d", idx)
+		goOn := true
+		if sr, ok := e.(SubRunner); ok {
+			if subs := sr.SubRuns(job.Batch, idx, job.Extra); subs != nil {
+				for si, sub := range subs {
+					if goOn = runOne(idx, si, sub); !goOn {
+						break
+					}
+				}
+				logf("END %d", idx)
+				if !goOn {
+					break
+				}
+				continue
+			}
+		}
+		goOn = runOne(idx, -1, job.Extra)
 		logf("END %d", idx)
-		if nviol >= maxViol {
+		if !goOn {
 			break
 		}
 	}
